@@ -199,6 +199,10 @@ class KCtx:
             raise Unknown("subscripted object `%s` is not an array parameter (line %s)" % (render(b), n.get("l")))
         if k == "OpCall" and n.get("op") == "[]" and len(n.get("a", [])) == 2:
             base, sub = strip(n["a"][0]), strip(n["a"][1])
+            if base.get("k") == "Ref" and base.get("dk") == "local" and base.get("d") not in self.acc:
+                v_ = self.loc.var.get(base.get("d"))
+                if v_ is not None and v_.get("ref") and v_.get("init") is not None and base.get("d") not in self.loc.written:
+                    base = strip(v_["init"])        # `ValueType_& r_i(r[i])`: the reference denotes the block it is bound to
             if self.j is not None and self.j in self.down and sub.get("k") == "Bin" and sub.get("op") == "-" and strip(sub["lhs"]).get("d") == self.j \
                     and strip(sub["rhs"]).get("k") == "Int" and int(strip(sub["rhs"])["v"]) == 1:
                 sub = strip(sub["lhs"])
@@ -482,7 +486,7 @@ def analyse_mapfold(ck, fn, struct, blocked):
             ctx.i, ctx.j = env["size"], env.get("block")
             tgt, new = ctx.assign(s_)
             updates.append((tgt, new, s_.get("l"), env["size"]))
-        if len(updates) > 1 and any(s_.get("k") == "Decl" and any(v.get("init") is not None and v["d"] not in written_locals and
+        if len(updates) > 1 and any(s_.get("k") == "Decl" and any(v.get("init") is not None and v["d"] not in written_locals and not v.get("ref") and
                                     any(y.get("k") == "Index" or (y.get("k") == "Un" and y.get("op") == "*") for y in walk(v["init"])) for v in s_["vars"])
                                     for s_ in walk({"k": "Block", "s": rest}) if isinstance(s_, dict)):
             # a named temporary holds the value an array element had when it was declared; with several updates the rule would
